@@ -132,33 +132,68 @@ def _wellformed(rep, fi, blocks, assigns, report=True, via_helper=False):
                 HELPER_VARS_PARAM[fi.name] = [a.arg for a in fi.node.args.args].index(it.id)
         rep.ob("R18.1", construct, src_ok, f"the non-continuous list '{L}' ranges over the problem's variables ({src(it)})"
                if src_ok else f"the non-continuous list '{L}' ranges over {src(it)}, not over problem.variables", loc=f"{fi.module.rel}:{comp.lineno}", detail="ranges-over-variables")
-        # strict branch raises IntegerVariableError(names of L); other branch warns naming L
+        # strict=True: every path through the block ends in `raise IntegerVariableError(<names of L>)`;
+        # strict=False: every path reaches a warnings.warn whose message names L and none raises.
+        # (walked per value of `strict`: if/else, early raise + tail, `if not strict: warn; return` ... are all fine)
+        from ..scenario import Explorer
+
         raise_ok = warn_ok = False
         raise_why = "no `raise IntegerVariableError` under `strict`"
         warn_why = "no warnings.warn in the non-strict branch"
-        for sub in ifn.body:
-            if isinstance(sub, ast.If) and "strict" in _names_in(sub.test) and "strict" in params:
-                pos = not (isinstance(sub.test, ast.UnaryOp) and isinstance(sub.test.op, ast.Not))
-                sbody, wbody = (sub.body, sub.orelse) if pos else (sub.orelse, sub.body)
-                for s in sbody:
-                    if isinstance(s, ast.Raise) and isinstance(s.exc, ast.Call) and (dotted(s.exc.func) or "").endswith("IntegerVariableError"):
-                        vals = [kw.value for kw in s.exc.keywords if kw.arg == "variable_names"] + list(s.exc.args[1:2])
-                        if vals and any(derived_from(n, L, assigns) for n in _names_in(vals[0])):
-                            raise_ok = True
-                        else:
-                            raise_why = "IntegerVariableError is raised without the names of the non-continuous variables"
-                for s in wbody:
-                    for c in calls(s):
+        if "strict" in params:
+            for sv in (True, False):
+                def atom_truth(t, state, sv=sv):
+                    if isinstance(t, ast.Name) and t.id == "strict":
+                        return sv
+                    if isinstance(t, ast.Compare) and len(t.ops) == 1 and src(t.left) == "strict" and isinstance(t.comparators[0], ast.Constant) and isinstance(t.ops[0], (ast.Is, ast.Eq, ast.IsNot, ast.NotEq)):
+                        hit = t.comparators[0].value == sv
+                        return hit if isinstance(t.ops[0], (ast.Is, ast.Eq)) else (not hit)
+                    return None
+
+                def on_stmt(s_, state):
+                    if isinstance(s_, ast.Raise):
+                        state["raised"].append(s_)
+                    for c in calls(s_) if not isinstance(s_, ast.Raise) else []:
                         if dotted(c.func) in ("warnings.warn", "warn") and c.args:
-                            used = _names_in(c.args[0])
-                            if any(derived_from(n, L, assigns) for n in used):
-                                warn_ok = True
-                            else:
-                                warn_why = "the warning message does not interpolate the non-continuous variables' names"
-                # nothing in the strict branch may fall through silently
-                if sbody and not isinstance(sbody[-1], ast.Raise):
-                    raise_ok = False
-                    raise_why = "the strict branch does not end in raise"
+                            state["warned"].append(c)
+
+                try:
+                    paths = Explorer(atom_truth, on_stmt).explore(ifn.body, {"raised": [], "warned": []})
+                except Exception:
+                    paths = None
+                if paths is None:
+                    continue
+                if sv:
+                    good = bool(paths)
+                    for st_, term in paths:
+                        r_ = st_["raised"][-1] if term == "raise" and st_["raised"] else None
+                        if r_ is None:
+                            good = False
+                            raise_why = "the strict branch does not end in raise"
+                            continue
+                        if not (isinstance(r_.exc, ast.Call) and (dotted(r_.exc.func) or "").endswith("IntegerVariableError")):
+                            good = False
+                            raise_why = "strict=True does not raise IntegerVariableError"
+                            continue
+                        vals = [kw.value for kw in r_.exc.keywords if kw.arg == "variable_names"] + list(r_.exc.args[1:2])
+                        if not (vals and any(derived_from(n, L, assigns) for n in _names_in(vals[0]))):
+                            good = False
+                            raise_why = "IntegerVariableError is raised without the names of the non-continuous variables"
+                    raise_ok = good
+                else:
+                    good = bool(paths)
+                    for st_, term in paths:
+                        if term == "raise":
+                            good = False
+                            warn_why = "strict=False raises instead of warning"
+                            continue
+                        if not st_["warned"]:
+                            good = False
+                            continue
+                        if not any(any(derived_from(n, L, assigns) for n in _names_in(c.args[0])) for c in st_["warned"]):
+                            good = False
+                            warn_why = "the warning message does not interpolate the non-continuous variables' names"
+                    warn_ok = good
         rep.ob("R18.1", construct, raise_ok, "strict=True raises IntegerVariableError listing exactly the filtered variables" if raise_ok else raise_why,
                loc=f"{fi.module.rel}:{ifn.lineno}", detail="strict-raises")
         rep.ob("R18.1", construct, warn_ok, "strict=False warns with a message naming exactly the filtered variables" if warn_ok else warn_why,
